@@ -105,12 +105,16 @@ Do(c) ==
     [] c.op = "dtick" -> DoTick
     [] c.op = "denum" -> DoEnum(c.a)
     [] c.op = "ddestroy" -> DoDestroy
-OpNames == {"dnew", "dadd", "dadd2", "dget", "dget0", "dfree", "dset", "dset2", "dclean", "dtick", "denum", "ddestroy"}
-Canon(o) == CASE o = "dadd2" -> "dadd" [] o = "dset2" -> "dset" [] OTHER -> o     \* adds and writes twice as likely
-EnabledCalls(o) == {c \in CallsOf(Canon(o)) : ENABLED Do(c)}
+OpBag == << "dnew", "dadd", "dadd", "dadd", "dadd", "dget", "dget", "dget0", "dfree", "dset", "dset", "dset", "dset",
+            "dclean", "dclean", "dclean", "dtick", "dtick", "dtick", "denum", "denum", "ddestroy" >>
+Gd(c) == CASE c.op = "dnew" -> ~dc.alive
+           [] c.op = "dset" -> dc.alive /\ c.a \in dc.live /\ dc.it[c.a].rc + c.d <= MaxRc
+           [] c.op = "dtick" -> dc.alive /\ now < MaxNow
+           [] OTHER -> dc.alive
+EnabledCalls(o) == {c \in CallsOf(o) : Gd(c)}
 SimNext ==
-  \E o \in {RandomElement({x \in OpNames : EnabledCalls(x) # {}})} :
-    \E c \in {RandomElement(EnabledCalls(o))} : Do(c)
+  \E i \in {RandomElement({x \in 1..Len(OpBag) : EnabledCalls(OpBag[x]) # {}})} :
+    \E c \in {RandomElement(EnabledCalls(OpBag[i]))} : Do(c)
 SimSpec == Init /\ [][SimNext]_vars
 
 Inv == DcInv(dc) /\ (~dc.alive => dc.live = {})
